@@ -9,7 +9,7 @@ from fractions import Fraction
 from sa.canon import canon
 from sa.peval import Unknown, compile_term, peval
 from sa.report import Ctx
-from sa.sym import FALSE, NONE, NOT, Summary, conjuncts, show, subst, walk
+from sa.sym import callkw, FALSE, NONE, NOT, Summary, conjuncts, show, subst, walk
 
 MOD = "soundevent.operations"
 
@@ -88,7 +88,7 @@ class C14:
         if not (t[0] == "call" and t[1] == Clip):
             ctx.undec("R14.2", site, f"yield is not data.Clip(...): {show(t)[:60]}")
             return
-        kw = dict(t[3])
+        kw = callkw(t)
         cs, ce = ("attr", clip, "start_time"), ("attr", clip, "end_time")
         if L.kind == "while":
             # start advanced by hop each iteration from clip.start: phi(start) pattern
